@@ -30,6 +30,7 @@ ENV = {
     "istuple": lambda x: isinstance(x, tuple),
     "isstr": lambda x: isinstance(x, str), "isint": lambda x: isinstance(x, int) and not isinstance(x, bool),
     "isbool": lambda x: isinstance(x, bool), "isfloat": lambda x: isinstance(x, float),
+    "istrue": lambda x: bool(x),
     "isnum": lambda x: isinstance(x, (int, float)) and not isinstance(x, bool),
     "isnone": lambda x: x is None, "iscallable": callable,
     "isjson": lambda x: _isjson(x),
